@@ -79,7 +79,12 @@ func faultyStmt(g *scriptGen, depth int) *Stmt {
 	g.lineID++
 	id := fmt.Sprintf("L%d", g.lineID)
 	note := func(ctx string) string { return ctx + "/" + f.kind }
-	switch rapid.IntRange(0, 17).Draw(t, "context") {
+	switch rapid.IntRange(0, 19).Draw(t, "context") {
+	case 18:
+		// text that is not valid markup (an unterminated marker): rendering the line fails
+		return &Stmt{K: "line", Text: []TextPart{{S: id + " " + brokenMarkup}}, Note: "statement/broken-markup-line"}
+	case 19:
+		return &Stmt{K: "opts", Opts: []*Opt{{Text: []TextPart{{S: id}}}, {Text: []TextPart{{S: id + "b " + brokenMarkup}}, Body: []*Stmt{{K: "line", Text: []TextPart{{S: id + "x"}}}}}}, Note: "statement/broken-markup-option"}
 	case 0, 1:
 		return &Stmt{K: "line", Text: []TextPart{{S: id + " "}, {E: f.e}, {S: " tail"}}, Note: note("line-interpolation")}
 	case 2:
@@ -227,6 +232,9 @@ func runC06(c flowCase) Verdict {
 	return Verdict{NonTrivial: reached, Classes: cls}
 }
 
+// brokenMarkup makes the text of a line or option unparsable as markup (an unterminated marker).
+const brokenMarkup = "[broken"
+
 // hostileArgs are passed to Next when no choice is pending.
 var hostileArgs = []int{5, -1, 0, 1 << 40, 2, math.MinInt64, 1}
 
@@ -242,6 +250,18 @@ var c06Faults = Register(Prop[flowCase]{
 	Gen: func(t *rapid.T) flowCase {
 		c := genFlowCase(t, faultScriptOpts)
 		c.Junk = nil
+		if rapid.IntRange(0, 2).Draw(t, "loop") == 0 {
+			// the whole script in a loop: the calls after the first error come back to statements that failed before.
+			// Every node starts with a line, so that no lap can run without yielding.
+			nodes := c.Script.allNodes()
+			for _, n := range nodes {
+				if len(n.Body) == 0 || n.Body[0].K != "line" || len(n.Body[0].Text) != 1 || n.Body[0].Text[0].E != nil {
+					n.Body = append([]*Stmt{{K: "line", Text: []TextPart{{S: "entering " + n.Title}}}}, n.Body...)
+				}
+			}
+			last := nodes[len(nodes)-1]
+			last.Body = append(last.Body, &Stmt{K: "jump", Target: nodes[0].Title})
+		}
 		return c
 	},
 	Run: runC06, Render: renderFlow, Minimize: minimizeFlow,
@@ -254,10 +274,28 @@ func TestC06Faults(t *testing.T) { Check(t, c06Faults) }
 var c06Matrix = Register(Prop[flowCase]{ID: "C06", Name: "fault-matrix", Run: runC06, Render: renderFlow})
 
 func TestC06FaultMatrix(t *testing.T) {
-	Enumerate(t, c06Matrix, true, "every catalogue fault x every expression context, at top level and inside a chosen option body, followed by ordinary statements",
+	Enumerate(t, c06Matrix, true, "every catalogue fault x every expression context (and lines and options whose text is not valid markup), at top level, inside a chosen option body and in a node that jumps back to itself, followed by ordinary statements",
 		func(yield func(flowCase) bool) {
 			cat := faultCatalogue()
 			line := func(s string) *Stmt { return &Stmt{K: "line", Text: []TextPart{{S: s}}} }
+			// each faulty statement at top level, inside a chosen option body, and in a node that jumps back to itself (the
+			// calls made after the first error come back to the very same statement again and again)
+			shapes := func(st *Stmt) bool {
+				for _, shape := range []string{"flat", "nested", "looping"} {
+					body := []*Stmt{line("before"), st, line("after"), {K: "jump", Target: "B"}}
+					switch shape {
+					case "nested":
+						body = []*Stmt{{K: "opts", Opts: []*Opt{{Text: []TextPart{{S: "enter"}}, Body: []*Stmt{line("inside"), st, line("still inside")}}}}, line("after"), {K: "jump", Target: "B"}}
+					case "looping":
+						body = []*Stmt{line("before"), st, line("after"), {K: "jump", Target: "A"}}
+					}
+					sc := &Script{Files: [][]*Node{{{Title: "A", Body: body}, {Title: "B", Body: []*Stmt{line("in B")}}}}}
+					if !yield(flowCase{Script: sc, Vars: flowVars, Choices: []int{0}}) {
+						return false
+					}
+				}
+				return true
+			}
 			for _, f := range cat {
 				contexts := map[string]*Stmt{
 					"line-interpolation":   {K: "line", Text: []TextPart{{S: "X "}, {E: f.e}}},
@@ -275,16 +313,18 @@ func TestC06FaultMatrix(t *testing.T) {
 				}
 				for name, st := range contexts {
 					st.Note = name + "/" + f.kind
-					for _, nested := range []bool{false, true} {
-						body := []*Stmt{line("before"), st, line("after"), {K: "jump", Target: "B"}}
-						if nested {
-							body = []*Stmt{{K: "opts", Opts: []*Opt{{Text: []TextPart{{S: "enter"}}, Body: []*Stmt{line("inside"), st, line("still inside")}}}}, line("after"), {K: "jump", Target: "B"}}
-						}
-						sc := &Script{Files: [][]*Node{{{Title: "A", Body: body}, {Title: "B", Body: []*Stmt{line("in B")}}}}}
-						if !yield(flowCase{Script: sc, Vars: flowVars, Choices: []int{0}}) {
-							return
-						}
+					if !shapes(st) {
+						return
 					}
+				}
+			}
+			for name, st := range map[string]*Stmt{
+				"broken-markup-line":   {K: "line", Text: []TextPart{{S: "X " + brokenMarkup}}},
+				"broken-markup-option": {K: "opts", Opts: []*Opt{{Text: []TextPart{{S: "o1"}}}, {Text: []TextPart{{S: "o2 " + brokenMarkup}}}}},
+			} {
+				st.Note = "statement/" + name
+				if !shapes(st) {
+					return
 				}
 			}
 		})
